@@ -53,3 +53,13 @@ add("C19", "round-trip and grammar-based property testing of the YAML reader/wri
 add("C20", "grammar-based property testing of the URDF extractor against by-construction expected values; negative documents; byte/token mutation and coverage-guided fuzzing (libFuzzer target urdf_bytes) in the thorough tier",
     "Documents rendered from OPW values in all supported layouts, orders (720 permutations), nestings, naming decorations, limit syntaxes and with duplicated copies: extracted parameters/signs/limits bit-equal, consistent to_robot/constraints/parameters, unlimited joints unconstrained; missing joint / conflicting duplicate / truncated / non-numeric documents give Err; nothing panics.",
     "Trusted: the renderer (harness/src/props/c20.rs); layouts outside the documented heuristics are not generated.", "DESIGN.md section 5, C20")
+
+add("C10", "property-based testing against a brute-force triangle-triangle distance oracle over statement-enumerated body pairs; differential across rayon pool sizes and repeats",
+    "Box-bodied robots with tool/base/environment and random safety tables: collides / collision_details / near(alternative table) / RobotBody::collides are compared with the exhaustive pair check in f64 (guard band 1e-4 m, grazing and containment undecided) in all three modes, over pools of 1/2/4/16 threads.",
+    "Trusted: oracle D (self-tested analytically and against parry3d::query::distance each run), oracle M for placement. Individual interleavings are not enumerated; the observable result must be invariant over pool sizes and repeats.", "DESIGN.md section 5, C10")
+add("C11", "differential property-based testing: robot-with-shape versus the hand-built documented stack filtered by the robot's own collides()",
+    "Both constructors, four entry points: answers bit-equal to the stack's non-colliding answers in order; forward / link poses / limits / singularity delegated; positioned_robot places meshes at the stack's link poses.",
+    "Trusted: C10 for collides() itself; harness model for the stack composition.", "DESIGN.md section 5, C11")
+add("C14", "property-based testing against a reference enumeration (12 candidates filtered by the arc oracle and the robot's own full collision check), multiset comparison over pool sizes",
+    "Collision-free initial vectors, from/to targets that fold the arm into earlier links / the base / environment boxes: the offered set equals the legal and free candidates exactly, for pools of 1/4/16 threads.",
+    "Trusted: collides() (decided by C10), oracle A for limits.", "DESIGN.md section 5, C14")
